@@ -3286,6 +3286,9 @@ class Parameters:
             if name == 'name' and onlychanged and _is_auto_name(self_.cls.__name__, value):
                 continue
             default = cls_params[name].default if name in cls_params else val.default
+            if name == 'name' and self_.self is not None:
+                # an instance is given a generated name, never the class default
+                default = Undefined
             if not onlychanged or not Comparator.is_equal(value, default):
                 vals.append((name, value))
 
@@ -4288,7 +4291,7 @@ class Parameters:
 
             # Suppresses automatically generated names.
             if k == 'name' and (values[k] is not None
-                                and re.match('^'+self.__class__.__name__+'[0-9]{5,}$', values[k])):
+                                and re.match('^'+self.__class__.__name__+r'[0-9]{5,}\Z', values[k])):
                 continue
 
             value = pprint(values[k], imports, prefix=prefix,settings=[],
